@@ -26,7 +26,7 @@ func init() {
 //verif:use offerenv
 //verif:go after
 //verif:ctx nondet
-//verif:param L=8/9
+//verif:param L=8/8
 func vhC16OutboundOffer() {
 	ver := uint8(vsChoose("version", 2))
 	limit := 1 + vsChoose("limit", 2)
